@@ -99,3 +99,15 @@ Proof.
   split; [exact H7 | exact (ExtraRefine2.init_state_wf K)].
 Qed.
 Print Assumptions C06_initial_states.
+
+(* DecoupledGP.evaluating, regenerated: the sample count grows by the number of requested (design, objective) pairs and the
+   total cost by the summed costs of the requested objectives, taken from the algorithm's own cost vector *)
+From VOPy Require ExtraRefine3.
+From VOPyGen Require Gen_extra3.
+Theorem C06_decoupled_gp_accounting : forall costs idx n c,
+  fst (Gen_extra3.gen_decoupled_evaluating costs idx n c) = (n + length idx)%nat /\
+  (costs = None -> snd (Gen_extra3.gen_decoupled_evaluating costs idx n c) = c) /\
+  (forall cs, costs = Some cs ->
+     snd (Gen_extra3.gen_decoupled_evaluating costs idx n c) = (c + fold_right Qplus 0%Q (map (fun k => nth k cs 0%Q) idx))%Q).
+Proof. exact ExtraRefine3.gen_decoupled_evaluating_spec. Qed.
+Print Assumptions C06_decoupled_gp_accounting.
